@@ -1,4 +1,5 @@
 import datetime
+import os
 
 from six.moves.urllib.parse import quote as url_quote
 
@@ -17,4 +18,6 @@ def format_date(deletion_date):  # type: (datetime.datetime) -> str
 
 
 def format_original_location(original_location):  # type: (str) -> str
-    return url_quote(original_location, '/')
+    # quote the bytes the file system knows the path by: a name that is not
+    # valid UTF-8 reaches us with surrogate escapes and cannot be encoded
+    return url_quote(os.fsencode(original_location), '/')
